@@ -79,9 +79,10 @@ TableStep ==
   \* theta_ij: defined for the six ordered pairs (the guarded three may raise NotImplementedError)
   /\ LET bad == { t \in Ids \X Ids : ScatRaises(t[1], t[2]) /\ SE(t[1], t[2]).kind # "raise" } IN
      Clause("ScatRaises", bad = {}, bad)
-  /\ LET bad == { t \in Pairs : ~( \/ (SE(t[1], t[2]).kind = "acos" /\ SE(t[1], t[2]).sg = 1)
-                                  \/ (ScatGuarded(t[1], t[2]) /\ SE(t[1], t[2]).kind = "raise" /\ SE(t[1], t[2]).exc = "NotImplementedError")) } IN
+  /\ LET bad == { t \in Pairs : SE(t[1], t[2]).kind = "raise" /\ ~(ScatGuarded(t[1], t[2]) /\ SE(t[1], t[2]).exc = "NotImplementedError") } IN
      Clause("ScatTable", bad = {}, bad)
+  /\ LET bad == { t \in Pairs : SE(t[1], t[2]).kind \notin {"acos", "raise"} } IN
+     Clause("ScatProjectionShape", bad = {}, bad)
   /\ LET g == { t \in Pairs : SE(t[1], t[2]).kind = "raise" } IN IF g = {} THEN TRUE ELSE PrintT(<<"STAT", "scat_guard_fires", Cardinality(g)>>)
   /\ UNCHANGED cnt
 
@@ -182,7 +183,7 @@ PtStep ==
   /\ LET bad == { t \in acosH : hatDefd(t) /\ Usable(HE(t[1], t[2])) /\ EAng(HE(t[1], t[2])) # hatGeomAng(t) } IN
      Clause("HatGeom", bad = {}, <<bad, M, S>>)
   \* theta_ij = helicity angle of i in the (ij) rest frame, from the flight direction of (ij); theta_ij + theta_ji = pi
-  /\ LET bad == { t \in acosS : scatDefd(t) /\ Usable(SE(t[1], t[2])) /\ RawCos(SE(t[1], t[2])) # scatGeomCos(t) } IN
+  /\ LET bad == { t \in acosS : scatDefd(t) /\ Usable(SE(t[1], t[2])) /\ (SE(t[1], t[2]).sg # 1 \/ RawCos(SE(t[1], t[2])) # scatGeomCos(t)) } IN
      Clause("ScatGeom", bad = {}, <<bad, M, S>>)
   /\ LET bad == { t \in acosS : <<t[2], t[1]>> \in acosS /\ Usable(SE(t[1], t[2])) /\ Usable(SE(t[2], t[1]))
                                 /\ RawCos(SE(t[1], t[2])) # CosNeg(RawCos(SE(t[2], t[1]))) } IN
